@@ -96,6 +96,8 @@ const slotSize = 4096
 type Worker struct {
 	R        *Runner
 	ID       int
+	polls    int64
+	cut      bool         // the current item was cut short by the tier deadline
 	curStart atomic.Int64 // unix nanos of Begin; 0 = idle
 	// libStart: unix nanos since which the worker has been inside code under test (Try / Timed); 0 = in harness code
 	libStart atomic.Int64
@@ -224,7 +226,18 @@ func (w *Worker) Nontrivial() { w.nontriv++ }
 func (w *Worker) Count(name string, n int64) { w.counters[name] += n }
 
 // Stopped reports whether the run should end early (deadline or too many violations).
-func (w *Worker) Stopped() bool { return w.R.stop.Load() }
+// Stopped tells a long work item to stop early: the violation cap was reached, or the tier deadline has passed
+// (the item then does not count as completed and the sweep is reported as capped).
+func (w *Worker) Stopped() bool {
+	if w.R.stop.Load() {
+		return true
+	}
+	w.polls++
+	if w.polls%64 == 0 && time.Now().After(w.R.Deadline) {
+		w.cut = true
+	}
+	return w.cut
+}
 
 // Fail records a violation for the current case.
 func (w *Worker) Fail(sig, src, detail string, extra map[string]any) {
@@ -321,9 +334,12 @@ func (r *Runner) Sweep(name string, n int64, fn func(w *Worker, i int64)) {
 					return
 				}
 				w.item, w.seq = i, 0
+				w.cut = false
 				fn(w, i)
 				w.End()
-				completed.Add(1)
+				if !w.cut {
+					completed.Add(1)
+				}
 			}
 		}(w)
 	}
